@@ -80,12 +80,18 @@ type Node struct {
 	T Ty      `json:"t,omitempty"`
 }
 
-func Key() *Node            { return &Node{K: "key", T: TyText} }
-func Value() *Node          { return &Node{K: "value", T: TyText} }
-func Str(s string) *Node    { return &Node{K: "str", S: s, T: TyText} }
-func Int(i int64) *Node     { return &Node{K: "int", I: i, T: TyInt} }
-func Bool(b bool) *Node     { n := &Node{K: "bool", T: TyBool}; if b { n.I = 1 }; return n }
-func Not(x *Node) *Node     { return &Node{K: "not", A: []*Node{x}, T: TyBool} }
+func Key() *Node         { return &Node{K: "key", T: TyText} }
+func Value() *Node       { return &Node{K: "value", T: TyText} }
+func Str(s string) *Node { return &Node{K: "str", S: s, T: TyText} }
+func Int(i int64) *Node  { return &Node{K: "int", I: i, T: TyInt} }
+func Bool(b bool) *Node {
+	n := &Node{K: "bool", T: TyBool}
+	if b {
+		n.I = 1
+	}
+	return n
+}
+func Not(x *Node) *Node           { return &Node{K: "not", A: []*Node{x}, T: TyBool} }
 func Ref(name string, t Ty) *Node { return &Node{K: "ref", S: name, T: t} }
 
 // Float builds a float literal from its text (exactly representable values
@@ -472,16 +478,16 @@ type Limit struct {
 }
 
 type Stmt struct {
-	Kind    string      `json:"kind"` // select delete put remove
-	Star    bool        `json:"star,omitempty"`
-	Fields  []SelField  `json:"fields,omitempty"`
-	Where   *Node       `json:"where,omitempty"`
-	Order   []OrderKey  `json:"order,omitempty"`
-	Group   []string    `json:"group,omitempty"`
-	Lim     *Limit      `json:"lim,omitempty"`
-	Pairs   [][2]*Node  `json:"pairs,omitempty"` // put
-	Keys    []*Node     `json:"keys,omitempty"`  // remove
-	NoSelKW bool        `json:"nosel,omitempty"` // bare `where P`
+	Kind    string     `json:"kind"` // select delete put remove
+	Star    bool       `json:"star,omitempty"`
+	Fields  []SelField `json:"fields,omitempty"`
+	Where   *Node      `json:"where,omitempty"`
+	Order   []OrderKey `json:"order,omitempty"`
+	Group   []string   `json:"group,omitempty"`
+	Lim     *Limit     `json:"lim,omitempty"`
+	Pairs   [][2]*Node `json:"pairs,omitempty"` // put
+	Keys    []*Node    `json:"keys,omitempty"`  // remove
+	NoSelKW bool       `json:"nosel,omitempty"` // bare `where P`
 }
 
 // Defs returns alias -> defining expression.
